@@ -1,5 +1,7 @@
 (** C18 — sorting and container libraries conform to their abstract data types: property theorems only. *)
-From ChibiV Require Import C18.RaList C18.RaListProofs C18.Deque C18.DequeProofs C18.Spec C18.Model C18.Proofs C18.Proofs2 C18.Oracle C18.OracleProofs C18.SpecCont C18.ContProofs C18.ISet C18.ISetProofs C18.ISetTie Gen.C18_ISetGuards C18.SeqTie Gen.C18_SeqLeaves.
+(* the red-black tree modules come first: later imports take precedence for the few names both define (keys_sorted) *)
+From ChibiV Require Import C18.RBDefs C18.RBTree C18.RBInv C18.RBTie Gen.C18_RBTables C18.RBContent C18.RBInvProofs C18.RBTheorems C18.RBCatenate C18.LQueue C18.LQueueProofs.
+From ChibiV Require Import C18.RaList C18.RaListProofs C18.Deque C18.DequeProofs C18.Spec C18.Model C18.Proofs C18.Proofs2 C18.Oracle C18.OracleProofs C18.SpecCont C18.ContProofs C18.ISet C18.ISetProofs C18.ISetInter C18.ISetInterProofs C18.ISetTie Gen.C18_ISetGuards C18.SeqTie Gen.C18_SeqLeaves.
 
 (** the merge step of both C merge sorts is a stable merge (ties: left run first) *)
 Theorem merge_stable : forall (A : Type) (lt : A -> A -> bool), strict_weak_order lt ->
@@ -494,3 +496,262 @@ Theorem seq_leaves_regenerated_equal_model :
   (forall A lf (f : list A) lr r, gen_check lf f lr r = dq_check lf f lr r).
 Proof. exact seq_leaves_tied. Qed.
 Print Assumptions seq_leaves_regenerated_equal_model.
+
+(** ---- SRFI 146 red-black tree inside the model (coq/C18/RBTree.v mirrors lib/srfi/146/rbtree.scm and the mapping.scm procedures on top) *)
+
+(** (G) the `tree-match` clause tables regenerated from lib/srfi/146/rbtree.scm on every run (Gen/C18_RBTables.v) are the model's
+    tables (by conversion): an edited pattern / template / clause order re-opens the proofs *)
+Theorem rbtree_tables_regenerated_equal_model :
+  (forall t, gen_blacken t = blacken t) /\ (forall t, gen_redden t = redden t) /\
+  (forall t, gen_white_to_black t = white_to_black t) /\ (forall t, gen_balance t = balance t) /\
+  (forall t, gen_rotate t = rotate t) /\ (forall t, gen_min_delete t = min_delete t) /\
+  (forall t c a b, gen_remove_at t c a b = remove_at t c a b).
+Proof. exact rb_tables_tied. Qed.
+Print Assumptions rbtree_tables_regenerated_equal_model.
+
+Local Open Scope Z_scope.
+Import ListNotations.
+
+(** tree-search (rbtree.scm:221-279) with EVERY decision of its continuations (insert / ignore / escape when the key is absent;
+    update / remove / escape when it is present): on a tree that satisfies the red-black invariant (root black, only black leaves,
+    no white = double-black node, no red node with a red child, equal black height on all paths) it never raises "tree does
+    not match any pattern", and the tree it returns satisfies the invariant again.  Covers insertion (balance), update
+    (identity) and deletion (rotate / min+delete / the white nodes of Germane & Might). *)
+Theorem rbtree_search_keeps_red_black_invariant : forall t obj f s, rb_inv t ->
+  match tree_search t obj f s with Built t' => rb_inv t' | Escaped => True | Raised => False end.
+Proof. exact tree_search_keeps_rb_invariant. Qed.
+Print Assumptions rbtree_search_keeps_red_black_invariant.
+
+(** the search-tree order and the content: when the continuations keep the searched key, the in-order listing of the returned
+    tree is the abstract map after the corresponding insertion / replacement / deletion, and its keys still strictly increase *)
+Theorem rbtree_search_refines_map : forall t obj f s t',
+  RBInv.keys_sorted t -> (forall k v, f = Insert k v -> k = obj) -> (forall old k v, s obj old = Update k v -> k = obj) ->
+  tree_search t obj f s = Built t' ->
+  elements t' = map_apply obj f s (elements t) /\ RBInv.keys_sorted t'.
+Proof. exact tree_search_refines_map. Qed.
+Print Assumptions rbtree_search_refines_map.
+
+(** the rotations and recolourings never change the in-order listing *)
+Theorem rbtree_tables_preserve_listing :
+  (forall t, elements (balance t) = elements t) /\
+  (forall t t', rotate t = Some t' -> elements t' = elements t) /\
+  (forall t x t', min_delete t = Some (x, t') -> elements t = x :: elements t') /\
+  (forall t, elements (blacken t) = elements t) /\ (forall t, elements (redden t) = elements t).
+Proof. exact (conj elements_balance (conj elements_rotate (conj elements_min_delete (conj elements_blacken elements_redden)))). Qed.
+Print Assumptions rbtree_tables_preserve_listing.
+
+(** mapping-set / -delete / -adjoin / -replace / -update/default / -delete-all on a valid mapping (red-black invariant + order):
+    they return, the result is valid, and it denotes what the finite-map oracle (SpecCont.v) computes *)
+Theorem mapping_updates_refine_map_oracle : forall m, mapping_ok m ->
+  (forall k v, exists m', mapping_set m k v = Some m' /\ mapping_ok m' /\ elements m' = map_set k v (elements m)) /\
+  (forall k, exists m', mapping_delete m k = Some m' /\ mapping_ok m' /\ elements m' = map_delete k (elements m)) /\
+  (forall k v, exists m', mapping_adjoin m k v = Some m' /\ mapping_ok m' /\ elements m' = map_adjoin k v (elements m)) /\
+  (forall k v, exists m', mapping_replace m k v = Some m' /\ mapping_ok m' /\ elements m' = map_replace k v (elements m)) /\
+  (forall k d, exists m', mapping_update m k (fun y => y + 1) d = Some m' /\ mapping_ok m' /\ elements m' = map_bump k d (elements m)) /\
+  (forall ks, exists m', mapping_delete_all m ks = Some m' /\ mapping_ok m' /\
+              elements m' = fold_left (fun a k => map_delete k a) ks (elements m)).
+Proof. exact mapping_updates_total_correct. Qed.
+Print Assumptions mapping_updates_refine_map_oracle.
+
+(** mapping-union (left-biased) / -intersection / -difference / -xor of two valid mappings *)
+Theorem mapping_set_operations_refine_map_oracle : forall m1 m2, mapping_ok m1 -> mapping_ok m2 ->
+  (exists m', mapping_union m1 m2 = Some m' /\ mapping_ok m' /\ elements m' = map_union (elements m1) (elements m2)) /\
+  (exists m', mapping_intersection m1 m2 = Some m' /\ mapping_ok m' /\ elements m' = map_inter (elements m1) (elements m2)) /\
+  (exists m', mapping_difference m1 m2 = Some m' /\ mapping_ok m' /\ elements m' = map_diff (elements m1) (elements m2)) /\
+  (exists m', mapping_xor m1 m2 = Some m' /\ mapping_ok m' /\ elements m' = map_xor (elements m1) (elements m2)).
+Proof. exact mapping_set_operations_total_correct. Qed.
+Print Assumptions mapping_set_operations_refine_map_oracle.
+
+Theorem mapping_filter_refines_map_oracle : forall (q : Z -> Z -> bool) m, mapping_ok m ->
+  exists m', mapping_filter (fun k v => Some (q k v)) m = Some m' /\ mapping_ok m' /\
+             elements m' = filter (fun kv => q (fst kv) (snd kv)) (elements m).
+Proof. exact mapping_filter_total_correct. Qed.
+Print Assumptions mapping_filter_refines_map_oracle.
+
+(** mapping-ref / -contains? / mapping->alist (sorted by key, exactly the denoted map) / -keys / -size / -empty? *)
+Theorem mapping_observers_refine_map_oracle : forall m, mapping_ok m ->
+  (forall k, mapping_ref m k = Some (map_ref k (elements m))) /\
+  (forall k, mapping_contains m k = Some (map_has k (elements m))) /\
+  mapping_to_alist m = Some (elements m) /\ StronglySorted Z.lt (map fst (elements m)) /\
+  mapping_keys m = Some (map fst (elements m)) /\
+  mapping_size m = Some (Z.of_nat (length (elements m))) /\
+  mapping_empty m = Some (match elements m with [] => true | _ => false end).
+Proof. exact mapping_observers_refine_map. Qed.
+Print Assumptions mapping_observers_refine_map_oracle.
+
+Theorem mapping_empty_is_valid : mapping_ok make_tree /\ elements make_tree = [].
+Proof. exact mapping_ok_empty. Qed.
+Print Assumptions mapping_empty_is_valid.
+
+(** what the invariant buys: no path is longer than twice the black height *)
+Theorem rbtree_height_at_most_twice_black_height : forall t, rb_inv t -> (height t <= 2 * bh t)%nat.
+Proof. exact height_bound. Qed.
+Print Assumptions rbtree_height_at_most_twice_black_height.
+
+(** ---- SRFI 117 list queues inside the model (coq/C18/LQueue.v mirrors lib/srfi/117/queue.scm over a heap of mutable pairs;
+    proofs in LQueueProofs.v) *)
+
+(** every constructor / mutator of lib/srfi/117/queue.scm, on well-formed queues ([lq_is h q xs]: the chain from the first pointer is a
+    finite acyclic list segment of the heap holding xs AND the last pointer is its last pair, '() iff empty): it returns (or raises exactly
+    where the Scheme code does), keeps the invariant, and the list afterwards is the list operation *)
+Theorem list_queue_mutators_keep_invariant_and_refine_lists :
+  (* make-list-queue, one argument: any proper list of the heap; the new queue SHARES its pairs *)
+  (forall h p xs, is_list h p xs -> exists q, lq_make1 h p = Some q /\ q_first q = p /\ lq_is h q xs) /\
+  (* make-list-queue, two arguments: correct iff the caller passes the last pair *)
+  (forall h p locs xs, lseg h p PNil locs xs -> lq_is h (lq_make2 p (last_ptr locs)) xs) /\
+  (* (list-queue x ...) *)
+  (forall h xs, exists h' q, lq_of_list h xs = Some (h', q) /\ lq_is h' q xs) /\
+  (* list-queue-copy: a new queue with the same elements, the old one is as before *)
+  (forall h q xs, lq_is h q xs ->
+     exists h' q', lq_copy h q = Some (h', q') /\ lq_is h' q' xs /\ lq_is h' q xs /\ lq_disjoint h' q' q) /\
+  (* list-queue-add-front!: cons *)
+  (forall h q x xs, lq_is h q xs ->
+     exists h' q', lq_add_front h q x = (h', q') /\ lq_is h' q' (x :: xs)) /\
+  (* list-queue-add-back!: snoc *)
+  (forall h q x xs, lq_is h q xs ->
+     exists h' q', lq_add_back h q x = Some (h', q') /\ lq_is h' q' (xs ++ [x])) /\
+  (* list-queue-remove-front!: an error on the empty queue, else returns the head, leaves the tail *)
+  (forall h q, lq_is h q [] -> lq_remove_front h q = None) /\
+  (forall h q a xs, lq_is h q (a :: xs) ->
+     exists q', lq_remove_front h q = Some (q', a) /\ lq_is h q' xs) /\
+  (* list-queue-remove-back!: an error on the empty queue, else returns the last element, leaves
+     the list without it *)
+  (forall h q, lq_is h q [] -> lq_remove_back h q = None) /\
+  (forall h q xs z, lq_is h q (xs ++ [z]) ->
+     exists h' q', lq_remove_back h q = Some (h', q', z) /\ lq_is h' q' xs) /\
+  (forall h q xs, lq_is h q xs -> xs <> [] ->
+     exists h' q', lq_remove_back h q = Some (h', q', last xs 0%Z) /\ lq_is h' q' (removelast xs)) /\
+  (* list-queue-remove-all!: the queue is empty, the result is the old list *)
+  (forall h q xs, lq_is h q xs ->
+     lq_is h (fst (lq_remove_all q)) [] /\ is_list h (snd (lq_remove_all q)) xs) /\
+  (* list-queue-set-list!, no optional argument: any proper list; the old value of q is irrelevant *)
+  (forall h q p xs, is_list h p xs -> exists q', lq_set_list1 h q p = Some q' /\ q_first q' = p /\ lq_is h q' xs) /\
+  (* list-queue-set-list! with [last]: correct iff the caller passes the last pair *)
+  (forall h q p locs xs, lseg h p PNil locs xs -> lq_is h (lq_set_list2 q p (last_ptr locs)) xs) /\
+  (* list-queue-concatenate / list-queue-append / list-queue-append!: concat, in fresh pairs *)
+  (forall h qs xss, Forall2 (lq_is h) qs xss ->
+     exists h' q, lq_concatenate h qs = Some (h', q) /\ lq_is h' q (concat xss) /\ Forall2 (lq_is h') qs xss) /\
+  (forall h qs xss, Forall2 (lq_is h) qs xss ->
+     exists h' q, lq_append h qs = Some (h', q) /\ lq_is h' q (concat xss) /\ Forall2 (lq_is h') qs xss) /\
+  (forall h qs xss, Forall2 (lq_is h) qs xss ->
+     exists h' q, lq_append_bang h qs = Some (h', q) /\ lq_is h' q (concat xss) /\ Forall2 (lq_is h') qs xss) /\
+  (* list-queue-map: a new queue; list-queue-map!: the same queue with a new list *)
+  (forall f h q xs, lq_is h q xs ->
+     exists h' q', lq_map f h q = Some (h', q') /\ lq_is h' q' (map f xs) /\ lq_is h' q xs) /\
+  (forall f h q xs, lq_is h q xs ->
+     exists h' q', lq_map_bang f h q = Some (h', q') /\ lq_is h' q' (map f xs)) /\
+  (* list-queue-unfold: [ys] is what SRFI 1 unfold returns; with a queue the elements go in front *)
+  (forall fuel stop mapper succ seed ys h, unfold_list fuel stop mapper succ seed = Some ys ->
+     (exists h' q', lq_unfold fuel stop mapper succ seed h None = Some (h', q') /\ lq_is h' q' ys) /\
+     (forall q xs, lq_is h q xs ->
+        exists h' q', lq_unfold fuel stop mapper succ seed h (Some q) = Some (h', q') /\
+                      lq_is h' q' (ys ++ xs))) /\
+  (* list-queue-unfold-right: with a queue the elements go to the back *)
+  (forall fuel stop mapper succ seed ys h, unfold_right_list fuel stop mapper succ seed [] = Some ys ->
+     (exists h' q', lq_unfold_right fuel stop mapper succ seed h None = Some (h', q') /\ lq_is h' q' ys) /\
+     (forall q xs, lq_is h q xs ->
+        exists h' q', lq_unfold_right fuel stop mapper succ seed h (Some q) = Some (h', q') /\
+                      lq_is h' q' (xs ++ ys))).
+Proof. exact lq_mutators_keep_invariant_and_refine_lists. Qed.
+Print Assumptions list_queue_mutators_keep_invariant_and_refine_lists.
+
+(** the observers answer what the list answers *)
+Theorem list_queue_observers_refine_lists :
+  (* list-queue-front = car of the list, an error on the empty queue *)
+  (forall h q xs, lq_is h q xs -> lq_front h q = hd_error xs) /\
+  (* list-queue-back = the last element, an error on the empty queue *)
+  (forall h q, lq_is h q [] -> lq_back h q = None) /\
+  (forall h q xs z, lq_is h q (xs ++ [z]) -> lq_back h q = Some z) /\
+  (forall h q xs, lq_is h q xs -> xs <> [] -> lq_back h q = Some (last xs 0%Z)) /\
+  (* list-queue-empty? *)
+  (forall h q xs, lq_is h q xs -> (lq_is_empty q = true <-> xs = [])) /\
+  (* list-queue-list returns the pointer to the list itself (no copy) *)
+  (forall h q xs, lq_is h q xs -> chain h (lq_list_ptr q) = Some xs) /\
+  (* list-queue-first-last: the list and its last pair, which make-list-queue accepts back *)
+  (forall h q xs, lq_is h q xs ->
+     exists locs, lseg h (fst (lq_first_last q)) PNil locs xs /\ snd (lq_first_last q) = last_ptr locs /\
+                  lq_make2 (fst (lq_first_last q)) (snd (lq_first_last q)) = q) /\
+  (* list-queue-for-each calls proc on the elements from first to last *)
+  (forall (S : Type) (f : Z -> S -> S) h q xs s, lq_is h q xs ->
+     lq_for_each f h q s = Some (fold_left (fun s x => f x s) xs s)) /\
+  (forall h q xs, lq_is h q xs -> lq_for_each (fun x tr => tr ++ [x]) h q [] = Some xs).
+Proof. exact lq_observers_refine_lists. Qed.
+Print Assumptions list_queue_observers_refine_lists.
+
+(** no interference: a set-cdr! / record update on one queue leaves every DISJOINT well-formed queue of the same heap as it was *)
+Theorem list_queue_frame :
+  (forall h q1 q2 x xs2,
+     lq_wf h q1 -> lq_is h q2 xs2 -> lq_disjoint h q1 q2 ->
+     exists h' q1', lq_add_back h q1 x = Some (h', q1') /\ lq_undisturbed h h' q1' q2 xs2) /\
+  (forall h q1 q2 xs2 h' q1' z,
+     lq_wf h q1 -> lq_is h q2 xs2 -> lq_disjoint h q1 q2 ->
+     lq_remove_back h q1 = Some (h', q1', z) -> lq_undisturbed h h' q1' q2 xs2) /\
+  (forall f h q1 q2 xs2 h' q1',
+     lq_wf h q1 -> lq_is h q2 xs2 ->
+     lq_map_bang f h q1 = Some (h', q1') ->
+     lq_is h' q2 xs2 /\ lq_locs h' q2 = lq_locs h q2 /\ lq_disjoint h' q1' q2).
+Proof. exact lq_frame. Qed.
+Print Assumptions list_queue_frame.
+
+(** the same for every destructive operation ([lq_step]); the conclusion re-establishes the hypotheses, so it iterates *)
+Theorem list_queue_frame_every_mutator : forall h q1 h' q1' q2 xs2,
+  lq_wf h q1 -> lq_step h q1 h' q1' -> lq_is h q2 xs2 -> lq_disjoint h q1 q2 ->
+  lq_wf h' q1' /\ lq_undisturbed h h' q1' q2 xs2.
+Proof. exact lq_frame_all_mutators. Qed.
+Print Assumptions list_queue_frame_every_mutator.
+
+(** queues that SHARE pairs (make-list-queue on another queue's list) do disturb each other: SRFI 117 leaves that to the caller *)
+Theorem list_queue_frame_without_disjointness_refuted :
+  ~ (forall h q1 q2 x xs2 h' q1',
+       lq_wf h q1 -> lq_is h q2 xs2 -> lq_add_back h q1 x = Some (h', q1') -> lq_is h' q2 xs2).
+Proof. exact lq_frame_without_disjointness_refuted. Qed.
+Print Assumptions list_queue_frame_without_disjointness_refuted.
+
+(** regression witness of the repaired defect (e)7: the pinned remove-back! loop left the last pointer on the removed pair *)
+Theorem list_queue_remove_back_before_fix_refuted :
+  exists h q h1 q1 h2 q2,
+    lq_is h q [1; 2; 3]%Z /\
+    lq_remove_back_before_fix h q = Some (h1, q1, 3%Z) /\ lq_list h1 q1 = Some [1; 2]%Z /\
+    ~ lq_wf h1 q1 /\ lq_back h1 q1 = Some 3%Z /\
+    lq_add_back h1 q1 4%Z = Some (h2, q2) /\ lq_list h2 q2 = Some [1; 2]%Z.
+Proof. exact lq_remove_back_before_fix_refuted. Qed.
+Print Assumptions list_queue_remove_back_before_fix_refuted.
+
+(** F-C18-14 as a theorem about the code AS IT IS (coq/C18/RBCatenate.v: black-height's patterns bind the colour instead of testing it, so it is
+    constantly 0 and tree-catenate always puts a black node on top): two valid mappings whose catenation violates the red-black invariant;
+    a deletion on the result leaves a white leaf, on which mapping->alist raises *)
+Theorem rbtree_catenate_keeps_invariant_refuted :
+  rb_inv f14_t1 /\ rb_inv f14_t2 /\ RBInv.keys_sorted f14_t1 /\ RBInv.keys_sorted f14_t2 /\
+  exists t, tree_catenate f14_t1 2 0 f14_t2 = Some t /\ ~ rb_inv t /\
+    exists t', mapping_delete t 1 = Some t' /\ ~ rb_inv t' /\ mapping_to_alist t' = None.
+Proof. exact tree_catenate_keeps_invariant_refuted. Qed.
+Print Assumptions rbtree_catenate_keeps_invariant_refuted.
+
+(** ---- (chibi iset) intersection / difference inside the model (coq/C18/ISetInter.v mirrors iset-intersection2! and iset-difference2! of
+    lib/chibi/iset/constructors.scm: the loops over the pre-collected node lists; the in-place mutation of a's nodes is an in-order
+    traversal threading the list of b-nodes; proofs in ISetInterProofs.v) *)
+Theorem iset_intersection_refines_set : forall a b t m, wf a -> wf b -> a <> Nil -> b <> Nil ->
+  intersection2 a b = Some t ->
+  wf t /\ t <> Nil /\ contains t m = (contains a m && contains b m)%bool.
+Proof. exact ISetInterProofs.iset_intersection_refines_set. Qed.
+Print Assumptions iset_intersection_refines_set.
+
+Theorem iset_difference_refines_set : forall a b t m, wf a -> wf b -> a <> Nil -> b <> Nil ->
+  difference2 a b = Some t ->
+  wf t /\ t <> Nil /\ contains t m = (contains a m && negb (contains b m))%bool.
+Proof. exact ISetInterProofs.iset_difference_refines_set. Qed.
+Print Assumptions iset_difference_refines_set.
+
+(** the listings are the oracle's set_inter / set_diff, and the fuel of the two loops (a function of the node counts only) always suffices *)
+Theorem iset_intersection_difference_listings_and_termination : forall a b, wf a -> wf b ->
+  (exists t, intersection2 a b = Some t /\ to_list t = set_inter (to_list a) (to_list b)) /\
+  (exists t, difference2 a b = Some t /\ to_list t = set_diff (to_list a) (to_list b)).
+Proof.
+  exact (fun a b Ha Hb =>
+    match iset_interdiff_fuel_suffices a b Ha Hb with
+    | conj (ex_intro _ t1 H1) (ex_intro _ t2 H2) =>
+        conj (ex_intro _ t1 (conj H1 (iset_intersection_to_list a b t1 Ha Hb H1)))
+             (ex_intro _ t2 (conj H2 (iset_difference_to_list a b t2 Ha Hb H2)))
+    end).
+Qed.
+Print Assumptions iset_intersection_difference_listings_and_termination.
